@@ -182,19 +182,26 @@ def separate : Nat → List Alg → Option (List Alg)
     if (rs.zip rs.tail).all (fun p => p.1.hi < p.2.lo) then some rs
     else (rs.mapM Alg.refine).bind (separate fuel)
 
+/-- sample points after the root `prev`: one between each pair of consecutive roots, one beyond the last -/
+def samplesAux : Alg → List Alg → List Rat
+  | prev, [] => [prev.hi + 1]
+  | prev, r :: rest => (prev.hi + r.lo) / 2 :: samplesAux r rest
+
 /-- rational sample points: one per open cell -/
 def samples (rs : List Alg) : List Rat :=
   match rs with
   | [] => [0]
-  | r0 :: _ =>
-    [r0.lo - 1] ++ (rs.zip rs.tail).map (fun p => (p.1.hi + p.2.lo) / 2) ++ [(rs.getLast?.map Alg.hi).getD 0 + 1]
+  | r0 :: rest => (r0.lo - 1) :: samplesAux r0 rest
+
+/-- s0, 0, s1, 0, …, 0, sn -/
+def interleave (ss : List Int) : List Int :=
+  match ss with
+  | [] => []
+  | s0 :: rest => s0 :: rest.flatMap (fun s => [0, s])
 
 /-- signs of p(ν, ·) on the 2n+1 cells -/
 def cellSigns (p : MPoly) (y : Nat) (a : Asg) (rs : List Alg) : Option (List Int) :=
-  ((samples rs).mapM (fun q => exactSign p ((y, ZAlg.ofRat q) :: a))).map (fun ss =>
-    match ss with
-    | [] => []
-    | s0 :: rest => s0 :: rest.flatMap (fun s => [0, s]))
+  ((samples rs).mapM (fun q => exactSign p ((y, ZAlg.ofRat q) :: a))).map interleave
 
 /-- feasible set of `p(ν, y) cond 0` (negated if `neg`) -/
 def feasible (p : MPoly) (y : Nat) (a : Asg) (cond : Nat) (neg : Bool) (cap : Nat) : Option (List Alg × List SInt) :=
